@@ -316,8 +316,15 @@ func init() {
 		// capacity windows)?  Strings are immutable and do not count.
 		"verifShares": func(e *Exec, fn *ssa.Function, a []Value) (Value, *GoPanic) {
 			var sa, sb []*SliceV
-			e.byteSlices(a[0], map[interface{}]bool{}, &sa)
-			e.byteSlices(a[1], map[interface{}]bool{}, &sb)
+			seenA, seenB := map[interface{}]bool{}, map[interface{}]bool{}
+			e.byteSlices(a[0], seenA, &sa)
+			e.byteSlices(a[1], seenB, &sb)
+			// a map reachable from both is shared mutable state as well
+			for k := range seenA {
+				if m, ok := k.(*MapObj); ok && seenB[m] {
+					return e.tb.T, nil
+				}
+			}
 			for _, x := range sa {
 				for _, y := range sb {
 					if x.Base == nil || y.Base == nil || x.Cap == 0 || y.Cap == 0 || !samePtr(x.Base, y.Base) {
@@ -530,12 +537,16 @@ func init() {
 			eq := e.tb.Eq(old, a[1].(*Term))
 			if e.branch(eq) {
 				e.atomicStore(p, a[2])
+				e.atomicYield()
 				return e.tb.T, nil
 			}
+			e.atomicYield()
 			return e.tb.F, nil
 		},
 		"sync/atomic.LoadUint32": func(e *Exec, fn *ssa.Function, a []Value) (Value, *GoPanic) {
-			return e.atomicLoad(a[0].(*Ptr)), nil
+			v := e.atomicLoad(a[0].(*Ptr))
+			e.atomicYield()
+			return v, nil
 		},
 		"sync/atomic.StoreUint32": func(e *Exec, fn *ssa.Function, a []Value) (Value, *GoPanic) {
 			e.atomicStore(a[0].(*Ptr), a[1])
@@ -1171,6 +1182,15 @@ func (e *Exec) atomicLoad(p *Ptr) Value {
 	v := e.load(p)
 	e.race = r
 	return v
+}
+
+// atomicYield: when scheduling choices are explored, the END of an atomic operation is a
+// scheduling point as well (a check-then-act sequence built from an atomic load and a later store
+// can be split there; the operation itself is never split).
+func (e *Exec) atomicYield() {
+	if e.env != nil && e.env.explore {
+		e.yield()
+	}
 }
 
 func (e *Exec) atomicStore(p *Ptr, v Value) {
